@@ -244,7 +244,8 @@ CLAIMED = {
                   "(structural induction over topic and history); tie: lock-step correspondence on the real SubscriptionTrie + multiset oracle",
         text="Proof, full strength for the matcher: after any history of subscribe/unsubscribe over arbitrary byte strings, matches(t) holds "
              "iff some active subscription is a byte-prefix of t; N subscribes need N unsubscribes; unsubscribing an absent topic is a "
-             "no-op; the empty topic matches everything; get_all_topics lists exactly the active topics once. 10 theorems. Partial with "
+             "no-op; the empty topic matches everything; get_all_topics lists exactly the active topics once. the delay between two attempts is waited out in full whatever events of other sockets arrive meanwhile (the earlier shape, "
+             "where any event ended the wait, is a counterexample theorem). 18 theorems. Partial with "
              "respect to the whole property: filter-on-first-frame glue, per-publisher ordering (C01/C08) and the non-blocking publisher are "
              "not yet covered by theorems here; concurrent match-while-modify only at lock granularity.",
         text_extra=" KNOWN FINDING C12:pub-blocks-on-stalled-subscriber (the publisher is blocked by a subscriber that stops reading once SNDHWM is reached; a pinned stress test relies on that back-pressure), witnessed by the `pubstall` scenario on every run.",
